@@ -534,7 +534,16 @@ def _r3_handlers(run, func, role, protocol_calls):
             if h.type is not None:
                 for x in (h.type.elts if isinstance(h.type, ast.Tuple) else [h.type]):
                     caught.append((dotted(x) or "?").split(".")[-1])
-            if caught and set(caught) <= {"Empty", "Full"}:
+            if caught and set(caught) <= {"Empty", "Full"} and not only_protocol and not always_raises and [
+                    c for c in body_calls if not ((callee_attr(c) in _BENIGN_TRY_CALLS) or any(c is p for p in protocol_calls))
+                    and _may_be_processing(run.project, func, c)]:
+                # the processing itself runs inside the try whose handler treats queue.Empty / queue.Full as "nothing received":
+                # a callback that raises one of them (it may use timed queue operations of its own) is taken for an idle poll
+                what = sorted({callee_attr(c) or "?" for c in body_calls} - _BENIGN_TRY_CALLS)
+                run.violated("C19.R3", func, h, "%s: the handler for %s at line %d also covers %s: a processing step that raises this exception (a timed queue "
+                             "operation of its own) is mistaken for an empty queue and its error is dropped" % (role, "/".join(caught), h.lineno, ", ".join(what)[:100]),
+                             kind="timeout-handler-covers-processing", function=func.short)
+            elif caught and set(caught) <= {"Empty", "Full"}:
                 # queue.Empty / queue.Full are raised only by timed queue operations: no processing error is caught here
                 run.holds("C19.R3", func, h, "%s: handler catches only queue timeouts (%s)" % (role, ", ".join(caught)), function=func.short)
             elif only_protocol:
@@ -557,6 +566,19 @@ def _r3_handlers(run, func, role, protocol_calls):
                         n += 1
     if n == 0:
         run.holds("C19.R3", func, None, "%s: no exception handler at all (errors propagate)" % role, function=func.short)
+
+
+def _may_be_processing(project, func, call):
+    """Is *call* (inside a try that catches queue timeouts) a call of user-supplied or project processing code - a parameter of
+    the function (callback), or a project function that is not a pure status / queue helper?"""
+    f = call.func
+    params = set(func.params())
+    if isinstance(f, ast.Name) and f.id in params:
+        return True
+    if isinstance(f, ast.Attribute) and isinstance(f.value, ast.Name) and f.value.id in params and f.attr not in (
+            "get", "put", "get_nowait", "put_nowait", "is_set", "set", "empty", "full", "qsize", "update", "join", "is_alive", "close", "join_thread"):
+        return True
+    return False
 
 
 def _only_uncaught_status_checks(project, func, handler, calls):
@@ -632,6 +654,11 @@ def _r4_context_managers(run, stages):
                 if hn and (cfg.exit.id in cfg.reachable(hn[0].id)):
                     if common.handler_catches(h, "Exception"):
                         bad = (h, "except clause around the yield does not re-raise: the with-body's exception is swallowed")
+                    elif h.type is not None and not (set((dotted(x_) or "?").split(".")[-1] for x_ in (h.type.elts if isinstance(h.type, ast.Tuple) else [h.type]))
+                                                     <= {"GeneratorExit", "StopIteration", "KeyboardInterrupt"}):
+                        names = ", ".join((dotted(x_) or "?") for x_ in (h.type.elts if isinstance(h.type, ast.Tuple) else [h.type]))
+                        bad = (h, "except (%s) around the yield does not re-raise: an exception of that class raised by the with-body (the dispatch loop, a "
+                               "callback, reading an input) is swallowed, the body is abandoned at that item and the caller returns normally" % names)
         users = [s for s in stages if any(common.resolve_callee(project, s.func, c) is f for c in own_calls(s.func.node))]
         if bad:
             run.violated("C19.R4", f, bad[0], bad[1], kind="context-manager-swallows", used_by=[s.name for s in users])
@@ -669,6 +696,21 @@ def _r6_status_meaning(run):
     from sa import sym, teval
     project = run.project
     n = 0
+    # a helper that joins (or inspects) every worker of a list must walk the whole list: taking entries out of it inside that very
+    # loop makes the iterator skip the next worker - it is neither waited for nor is its status looked at
+    for f in project.py_funcs():
+        if "/tests/" in f.module.relpath:
+            continue
+        for lp, x in _mutated_while_iterated(f.node):
+            touches = any((isinstance(y, ast.Attribute) and y.attr == "exitcode") or
+                          (isinstance(y, ast.Call) and isinstance(y.func, ast.Attribute) and y.func.attr == "join" and not y.args
+                           and isinstance(y.func.value, ast.Name) and isinstance(lp.target, ast.Name) and y.func.value.id == lp.target.id)
+                          for y in ast.walk(lp))
+            if touches and not any(isinstance(r_, ast.Raise) for r_ in own_nodes(f.node)):
+                run.note_func(f)
+                run.violated("C19.R6", f, x, "%s takes entries out of `%s` (line %d) inside the loop that joins / inspects the workers in it: the list iterator skips "
+                             "the worker that slides into the freed slot, which is then neither waited for nor checked for a failure" % (
+                                 f.short, ast.unparse(lp.iter), x.lineno), kind="join-loop-skips-worker")
     for f in project.py_funcs():
         reads = [x for x in own_nodes(f.node) if isinstance(x, ast.Attribute) and x.attr == "exitcode" and isinstance(x.ctx, ast.Load)]
         if not reads or not any(isinstance(x, ast.Raise) for x in own_nodes(f.node)):
